@@ -160,6 +160,7 @@ def gen_rounds(seed, tier, run):
             if L == 6 and rng.random() < 0.7:
                 continue
             out.append(f"trim_zeros {arr([L], v)}")
+    out = retype(out, rng, set(['delete', 'insert', 'insert_entry', 'repeat', 'append', 'concatenate']))          # other element types for the generic operations
     impl, model = run(out)
     # round trip: delete what was just inserted
     follow = []
